@@ -21,7 +21,7 @@
 typedef struct {
   int fin; void* R;
   int parks, scheduled, sched_bad, yields;
-  int mailbox; int fin_exchanged;
+  int mailbox; int fin_exchanged; int claimed;   /* claimed: my write replaced WAIT_FOR_JOINER by WAIT_TO_JOIN (I used up the fiber's single join) */
   int other_joined;   /* another joiner's exchange took the hand-off from the finished fiber (WAIT_FOR_JOINER -> WAIT_TO_JOIN) */
   fiber_t* taken_out;  /* the party clear_or_wait handed me (it has parked: its context is saved) */
   int woken_by_detach; int detach_saw_joiner; int ds_seen; /* detach_state as it was at my latest access to it (for an exchange: the value it replaced) */
@@ -35,13 +35,20 @@ fiber_t* T;          /* the target fiber (heap object: reclaimed once its finish
 #include "src/fiber.c" /* woven */
 /* the private marker fiber_detach hands to a parked joiner (introduced by the D5 fix); a rename makes this TU fail to compile = undecided */
 #define C04_DETACH_MARKER ((void*)&fiber_join_detached_marker)
+static int role_finisher, role_detacher;
 static int l_ds;
 static int my_exchange_done;   /* my exchange on detach_state has decided my part; from then on the others see my value and follow the protocol */
 static void spec_snap(void) { if (T && !G.t_freed) l_ds = *(int*)&T->detach_state; }
-static void spec_step(int site) { if (T && !G.t_freed && *(int*)&T->detach_state != l_ds) my_exchange_done = 1; }
+static void spec_step(int site) {
+  if (T && !G.t_freed && *(int*)&T->detach_state != l_ds) {
+    /* my write to detach_state (the value it replaced is the one that was there at the instant of the write: l_ds) */
+    if (!role_detacher) VASSERT(l_ds != FIBER_DETACH_DETACHED, "G: C04 DETACHED is final: a joiner's or the finisher's write never replaces it (joining a detached fiber fails - also when the detach lands between my look at the state and my write)");
+    if (!role_detacher && !role_finisher && l_ds == FIBER_DETACH_WAIT_FOR_JOINER && *(int*)&T->detach_state == FIBER_DETACH_WAIT_TO_JOIN) G.claimed = 1;
+    my_exchange_done = 1;
+  }
+}
 static int ds_ok(int d) { return d == FIBER_DETACH_NONE || d == FIBER_DETACH_WAIT_FOR_JOINER || d == FIBER_DETACH_WAIT_TO_JOIN || d == FIBER_DETACH_DETACHED; }
 #define DS (*(int*)&T->detach_state)
-static int role_finisher, role_detacher;
 /* interference: the other parties act on T (only before I have been told, by my own exchange, what to do) */
 #define MB_EMPTY 0
 #define MB_FINISHER 1   /* the finished fiber is (or is about to be) parked in T.join_info */
@@ -130,7 +137,7 @@ static void init(int finisher) {
   role_finisher = finisher; role_detacher = 0; my_exchange_done = 0; G.detach_saw_joiner = 0;
   T = (fiber_t*)malloc(sizeof(fiber_t)); VASSUME(T != 0);
   G.R = (void*)verif_u64(); VASSUME(G.R != C04_DETACH_MARKER); /* a user's return value cannot be the library's private marker */ G.parks = G.scheduled = G.sched_bad = G.yields = 0; G.woken_by_detach = 0; G.t_freed = 0; G.other_joined = 0; G.taken_out = 0;
-  G.mailbox = MB_EMPTY; G.fin_exchanged = 0;
+  G.mailbox = MB_EMPTY; G.fin_exchanged = 0; G.claimed = 0;
   int d = verif_int(); VASSUME(ds_ok(d)); DS = d;
   G.fin = (d == FIBER_DETACH_WAIT_FOR_JOINER) ? 1 : verif_bool();
   if (d == FIBER_DETACH_WAIT_FOR_JOINER) { G.fin_exchanged = 1; G.mailbox = MB_FINISHER; }
@@ -148,6 +155,7 @@ void h_join(void) {
     VASSERT(!G.sched_bad && G.parks + G.scheduled == 1, "C04: a successful join either parked once (joiner first) or woke the finished fiber once (finisher first)");
     VASSERT(G.fin && res == G.R, "C04.join: SUCCESS only after the fiber's function returned, delivering exactly its return value");
     VASSERT(!G.other_joined, "C04.join: at most one joiner succeeds");
+    if (G.scheduled == 1) VASSERT(G.claimed, "C04.join: a join that finds the fiber finished uses up its single join (WAIT_FOR_JOINER is replaced): no later joiner can succeed as well");
   } else VASSERT(r == FIBER_ERROR && G.scheduled == 0 && res == 0 && (G.parks == 0 || (G.parks == 1 && G.woken_by_detach)), "C04.join: a failed join delivers nothing and wakes nobody; it fails without parking (detached / already being joined) or because fiber_detach released it");
   VCANARY("join can return");
 }
@@ -155,7 +163,7 @@ void h_tryjoin(void) {
   init(0); void* res = (void*)verif_u64();
   int r = fiber_tryjoin(T, &res);
   VASSERT(G.parks == 0 && !G.sched_bad, "C04.tryjoin: never parks; wakes nobody but the finished fiber");
-  if (r == FIBER_SUCCESS) VASSERT(!G.sched_bad && G.scheduled == 1 && G.fin && res == G.R && !G.other_joined, "C04.tryjoin: SUCCESS only for a finished fiber nobody else has joined, delivering its return value and waking it once");
+  if (r == FIBER_SUCCESS) VASSERT(!G.sched_bad && G.scheduled == 1 && G.fin && res == G.R && !G.other_joined && G.claimed, "C04.tryjoin: SUCCESS only for a finished fiber nobody else has joined, delivering its return value and waking it once");
   else VASSERT(r == FIBER_ERROR && G.scheduled == 0 && res == 0, "C04.tryjoin: failure wakes nobody and delivers nothing");
   VCANARY("tryjoin can return");
 }
